@@ -65,6 +65,7 @@ type Exec struct {
 	unwound         map[string]bool
 	postSeen        map[string]int
 	siteSeen        map[*Clause]int
+	assumeCovers    map[*Clause]int
 	specEval        int       // >0 while a function body is run to evaluate a specification expression: no obligations
 	inst            [2]string // binding of a function-typed parameter (instantiate clause)
 	ghostSeen       map[*GhostStmt]int
